@@ -83,6 +83,10 @@ def shards(tier, seed):
     for ri in (0, 2, 5):
         out.append((ri, None, 3, 'roo'))
         out.append((ri, None, 3, 'r'))
+    # characters that only LOOK like dots and slashes (fullwidth full stop, two-dot leader, fullwidth solidus): ordinary name characters
+    for ri in (0, 2):
+        for extra in ('\uff0e\uff0e', '\u2025', '\uff0e', '..\uff0fabove.txt', '\uff0f'):
+            out.append((ri, None, 3, extra))
     # conditional requests (If-Modified-Since in the future): outside names stay 403 / 404, inside files answer 304
     for ri in (0, 2):
         for si in range(len(SEGS)):
